@@ -711,6 +711,28 @@ func runC01(p *core.Prog, r *core.Report, tier string) {
 				}
 			case *ssa.Store:
 				if id, _, ok := core.FieldOfAddr(x.Addr); ok && id == attestedField && f.Name() != "New" {
+					// the copy-on-write form of the housekeeping delete: a new outer map that takes over every epoch's set as
+					// it is (same key, same set object) except the one of epoch(duty)-c, stored under the lock
+					if dropped, okCopy := attestedCopyWithout(ds, f, x, attestedField); okCopy {
+						nDel++
+						kd := ds.D(dropped)
+						construct := core.FnKey(f) + "|delete-epoch"
+						okKey := false
+						var c uint64
+						if kd.Kind == "binop" && kd.Name == "-" {
+							if cv, ok := kd.Args[1].Val.(*ssa.Const); ok && cv.Value != nil && cv.Value.Kind() == constant.Int {
+								c, _ = constant.Uint64Val(cv.Value)
+								okKey = c >= 2 && kd.Args[0].MentionsCall("services/attester.Duty.Slot")
+							}
+						}
+						r.Check(okKey, "C01.e", construct+"|key", p.Pos(in.Pos()), fmt.Sprintf("housekeeping leaves out epoch(duty)-%d", c), "housekeeping leaves out "+kd.String()+": marks of the current or previous epoch would be withdrawn (must be epoch(duty.Slot()) - c, c >= 2)")
+						if sub, ok := dropped.(*ssa.BinOp); ok && sub.Op == token.SUB {
+							w := core.SubUnguarded(ds, f, sub)
+							r.Check(w == nil, "C01.e", construct+"|guarded-sub", p.Pos(in.Pos()), "the epoch subtraction is guarded", "the epoch subtraction can wrap (no guard epoch > c-1)", p.WitnessText(w)...)
+						}
+						r.Check(heldGuard(p, la, la.HeldAt(f)[in], attestedField, true), "C01.e", construct+"|locked", p.Pos(in.Pos()), "replacement under attestedMu", "replacement without attestedMu")
+						return
+					}
 					r.Violate("C01.e", core.FnKey(f)+"|replace-attested", p.Pos(in.Pos()), "the attested map is replaced outside the constructor")
 				}
 			}
@@ -980,4 +1002,85 @@ func epochSetOf(v ssa.Value, isAttestedMap func(types.Type) bool) (core.FieldID,
 		}
 	}
 	return core.FieldID{}, false
+}
+
+// attestedCopyWithout: the value stored by st into the attested field is a map made in f that is filled only inside a
+// range over the attested field itself, with the range's own key and value (the per-epoch sets are taken over, not
+// copied), and an iteration leaves its entry out only on the edge `key == D`. Returns D.
+func attestedCopyWithout(ds *core.Describer, f *ssa.Function, st *ssa.Store, field core.FieldID) (ssa.Value, bool) {
+	mk, ok := st.Val.(*ssa.MakeMap)
+	if !ok || mk.Parent() != f || mk.Referrers() == nil {
+		return nil, false
+	}
+	var updates []*ssa.MapUpdate
+	for _, ref := range *mk.Referrers() {
+		switch x := ref.(type) {
+		case *ssa.MapUpdate:
+			if x.Map != ssa.Value(mk) {
+				return nil, false
+			}
+			updates = append(updates, x)
+		case *ssa.Store, *ssa.DebugRef:
+		default:
+			return nil, false
+		}
+	}
+	if len(updates) != 1 {
+		return nil, false
+	}
+	mu := updates[0]
+	kx, ok1 := mu.Key.(*ssa.Extract)
+	vx, ok2 := mu.Value.(*ssa.Extract)
+	if !ok1 || !ok2 || kx.Tuple != vx.Tuple || kx.Index != 1 || vx.Index != 2 {
+		return nil, false
+	}
+	next, ok := kx.Tuple.(*ssa.Next)
+	if !ok {
+		return nil, false
+	}
+	rng, ok := next.Iter.(*ssa.Range)
+	if !ok {
+		return nil, false
+	}
+	if id, ok := core.FieldOfValue(rng.X); !ok || id != field {
+		return nil, false
+	}
+	// the only way round the update, from one Next to the following, is the edge key == D
+	var dropped ssa.Value
+	est := core.GuardEdges(ds, f, func(c core.Cond) int {
+		if c.Op != "==" && c.Op != "!=" {
+			return -1
+		}
+		var other *core.VD
+		switch {
+		case c.X.Val == ssa.Value(kx):
+			other = c.Y
+		case c.Y.Val == ssa.Value(kx):
+			other = c.X
+		default:
+			return -1
+		}
+		for s := 0; s < 2; s++ {
+			if c.RelOnEdge(s) == "==" {
+				dropped = other.Val
+				return 1 - s // the entry is kept on the other edge
+			}
+		}
+		return -1
+	})
+	if dropped == nil || len(est) == 0 {
+		return nil, false
+	}
+	w := core.PathQuery{Fn: f, From: next, Target: func(x ssa.Instruction) bool { return x == ssa.Instruction(next) },
+		Avoid: func(x ssa.Instruction) bool { return x == ssa.Instruction(mu) },
+		Edge: func(b *ssa.BasicBlock, succ int) bool {
+			if s, ok := est[b]; ok && s != succ {
+				return false
+			}
+			return true
+		}}.Find()
+	if w != nil {
+		return nil, false
+	}
+	return dropped, true
 }
